@@ -319,6 +319,10 @@ func TestVerif_C31(t *testing.T) {
 		r.Count("frames_probed", 1)
 		r.Nontrivial(fmt.Sprintf("%s|%d", fr.Case, fr.Size))
 		switch {
+		case fr.Case == "fragmented-frame":
+			if fr.SendErr != "" || fr.RecvErr != "" || !fr.Equal {
+				r.Violation("C31|framing|roundtrip-fragmented", fmt.Sprintf("a %d byte frame delivered in pieces did not round-trip exactly (send %q receive %q)", fr.Size, fr.SendErr, fr.RecvErr), map[string]any{"size": fr.Size})
+			}
 		case fr.Case == "frame" && fr.Size <= max:
 			if fr.SendErr != "" || fr.RecvErr != "" || !fr.Equal {
 				r.Violation("C31|framing|roundtrip", fmt.Sprintf("a %d byte frame did not round-trip exactly (send %q receive %q)", fr.Size, fr.SendErr, fr.RecvErr), map[string]any{"size": fr.Size})
